@@ -1,5 +1,40 @@
 package main
 
+import (
+	"fmt"
+	"strings"
+
+	"golang.org/x/mod/modfile"
+)
+
 func init() {
-	mirror("modfile.modulepath", "modfile.autoquote", "modfile.isdirpath")
+	mirror("modfile.modulepath", "modfile.autoquote", "modfile.isdirpath", "modfile.lex")
+	// token level: the lexer alone (hook LexTokens, build tag verif), on every input that is parsed
+	impls["modfile.lex"] = func(a []string) string {
+		toks, comments, ok := modfile.LexTokens([]byte(unhx(a[0])))
+		if !ok {
+			return "err"
+		}
+		pos := func(p modfile.Position) string { return fmt.Sprintf("%d:%d:%d", p.Byte, p.Line, p.LineRune) }
+		ts := make([]string, len(toks))
+		for i, t := range toks {
+			ts[i] = fmt.Sprintf("%d@%s-%s=%s", t.Kind, pos(t.Pos), pos(t.EndPos), hx(t.Text))
+		}
+		cs := "_"
+		if len(comments) > 0 {
+			l := make([]string, len(comments))
+			for i, c := range comments {
+				l[i] = fmt.Sprintf("%s=%s:%s", pos(c.Start), hx(c.Token), showBool(c.Suffix))
+			}
+			cs = strings.Join(l, ",")
+		}
+		return strings.Join(ts, ",") + " comments=" + cs
+	}
+	derivedOps["modfile.parsesyntax"] = func(line string) []string {
+		f := strings.Fields(line)
+		if len(f) != 2 || len(f[1]) > 4000 {
+			return nil
+		}
+		return []string{"modfile.lex " + f[1]}
+	}
 }
